@@ -3,7 +3,7 @@
 (* [name, kind ("SEG" | "GRP"), min, max, par] where par is the index of the enclosing group node (0: the  *)
 (* message itself).  A parsed message is a forest given as rows [name, kind, par] in document order (par:   *)
 (* index of the parent row, 0: the message).                                                                  *)
-EXTENDS Naturals, Sequences, FiniteSets, TLC
+EXTENDS Integers, Sequences, FiniteSets, TLC
 
 SegNodes(S, n) == {i \in 1..Len(S) : S[i].kind = "SEG" /\ S[i].name = n}
 GrpNodes(S, n) == {i \in 1..Len(S) : S[i].kind = "GRP" /\ S[i].name = n}
